@@ -2,7 +2,7 @@
 import ast
 
 from ..model import AnalysisError, Model, walk_no_nested, norm_stmt, names_in
-from .. import flow, dispatch, loops, sem
+from .. import flow, dispatch, loops, sem, excmap
 
 EXPLANATION = (
     'Decided on codecs/ber.py: (R1) every class whose tag is built with Encoding.CONSTRUCTED and that decodes through StandardDecodeMixin has '
@@ -89,16 +89,26 @@ def check(ctx):
         if not ok:
             ctx.violation('C04.R1', BER, f, Model.qual(f), 'the constructed form of a string type is no longer recognised', stmt='constructed tag')
     dl = model.func(BER, 'decode_length')
+    # decode_length is decided by bounded evaluation (sa/excmap.py: every length form of X.690 8.1.3, every prefix, the indefinite form with and without
+    # enforce_definite); the path-shape rules below are the fall-back for a decode_length the evaluator cannot follow
+    dl_ok, dl_und, dl_bad, dl_why = excmap.evaluate_decode_length(dl)
+    dl_decided = dl_und == 0 and dl_ok > 0
+    ctx.instance('C04.R1', 'decode_length on every length form and prefix, indefinite form included: %d cases evaluated, %d undecided' % (dl_ok, dl_und),
+                 'VIOLATION' if dl_bad else ('ok' if dl_decided else 'undecided'), dl_why or '', nontrivial=dl_ok > 0, node=dl, file=BER)
+    if dl_bad:
+        ctx.violation('C04.R1', BER, dl, Model.qual(dl), dl_bad + ': a length form X.690 allows is not read as the encoder of another implementation wrote it', stmt='decode_length evaluation')
     dps = sem.paths(dl)
-    if dps is None:
+    if dps is None and not dl_decided:
         raise AnalysisError('decode_length: too many paths')
-    # the path on which the first length octet equals 0x80 and definite lengths are not enforced returns None as the length
-    indef = [p for p in dps if p.outcome[0] == 'return' and isinstance(p.outcome[3], ast.Tuple) and isinstance(p.outcome[3].elts[0], ast.Constant)
-             and p.outcome[3].elts[0].value is None]
-    ok = bool(indef) and all(any('-128 == 0' in c[0] and c[1] for c in p.conds) for p in indef)
-    ctx.instance('C04.R1', 'decode_length maps 0x80 to (None, offset)', 'ok' if ok else 'VIOLATION', node=dl, file=BER)
-    if not ok:
-        ctx.violation('C04.R1', BER, dl, Model.qual(dl), 'the indefinite-length octet 0x80 must yield length None', stmt='0x80 -> None')
+    dps = dps or []
+    if not dl_decided:
+        # the path on which the first length octet equals 0x80 and definite lengths are not enforced returns None as the length
+        indef = [p for p in dps if p.outcome[0] == 'return' and isinstance(p.outcome[3], ast.Tuple) and isinstance(p.outcome[3].elts[0], ast.Constant)
+                 and p.outcome[3].elts[0].value is None]
+        ok = bool(indef) and all(any('-128 == 0' in c[0] and c[1] for c in p.conds) for p in indef)
+        ctx.instance('C04.R1', 'decode_length maps 0x80 to (None, offset)', 'ok' if ok else 'VIOLATION', node=dl, file=BER)
+        if not ok:
+            ctx.violation('C04.R1', BER, dl, Model.qual(dl), 'the indefinite-length octet 0x80 must yield length None', stmt='0x80 -> None')
 
     # ---- R2
     def arith_on(expr, name):
@@ -196,9 +206,15 @@ def check(ctx):
         frozenset({lit('ARG2 is None', True), lit('ARG1 >= ARG2', True)}): {ret('(False, ARG1)')},
     }
     ok = table == want
-    ctx.instance('C04.R2', 'is_end_of_data: definite -> offset >= end_offset, indefinite -> 00 00 consumed [%d cases]' % len(table), 'ok' if ok else 'VIOLATION', node=f, file=BER)
+    e_ok, e_und, e_bad, e_why = excmap.evaluate_is_end_of_data(f)
+    how = ''
+    if e_und == 0 and e_ok > 0:
+        # decided by evaluation (definite and indefinite cases, end-of-contents consumed)
+        ok = e_bad is None
+        how = 'decided by evaluation on %d cases' % e_ok
+    ctx.instance('C04.R2', 'is_end_of_data: definite -> offset >= end_offset, indefinite -> 00 00 consumed [%d cases]' % len(table), 'ok' if ok else 'VIOLATION', how, node=f, file=BER)
     if not ok:
-        diff = sorted('%s -> %s' % (' & '.join(('' if p else 'not ') + t for t, p in sorted(k)), sorted(v)) for k, v in table.items() if want.get(k) != v)
+        diff = [e_bad] if e_bad else sorted('%s -> %s' % (' & '.join(('' if p else 'not ') + t for t, p in sorted(k)), sorted(v)) for k, v in table.items() if want.get(k) != v)
         ctx.violation('C04.R2', BER, f, Model.qual(f), 'end-of-data detection changed (definite: offset >= end_offset; indefinite: end-of-contents octets, consumed): %s' % '; '.join(diff)[:400], stmt='is_end_of_data')
 
     # is_end_of_data consumes the end-of-contents octets when it reports the end of an indefinite form (it returns an advanced offset):
@@ -245,9 +261,47 @@ def check(ctx):
     ctx.instance('C04.R3', 'Choice.get_member_tags recurses into nested CHOICE and Recursive', 'ok' if ok else 'VIOLATION', node=f, file=BER)
     if not ok:
         ctx.violation('C04.R3', BER, f, Model.qual(f), 'untagged nested CHOICE / recursive alternatives are no longer reachable by their tags', stmt='nested alternatives')
+    # wherever the tags of *other* type objects (members, alternatives) are collected for dispatch -- a map keyed by <member>.tag, a list or set of them -- the
+    # constructed-form alias of string types has to be collected with them: a string member in constructed (segmented) form carries the tag with bit 6 set
+    n_maps = 0
+    for rel_ in (BER, 'asn1tools/codecs/der.py'):
+        for g_ in [n for n in ast.walk(model.mod(rel_).tree) if isinstance(n, ast.FunctionDef)]:
+            if g_.name.startswith(('encode', '__repr__', 'format_')):
+                continue
+
+            def other_tag(e):
+                return any(isinstance(x, ast.Attribute) and x.attr == 'tag' and isinstance(x.ctx, ast.Load) and not (isinstance(x.value, ast.Name) and x.value.id == 'self')
+                           for x in ast.walk(e))
+            sites = []
+            for n in walk_no_nested(g_):
+                if isinstance(n, ast.DictComp) and other_tag(n.key):
+                    sites.append(n)
+                elif isinstance(n, (ast.SetComp, ast.ListComp)) and other_tag(n.elt) and not isinstance(getattr(n, '_parent', None), ast.Call):
+                    sites.append(n)
+                elif isinstance(n, ast.Call) and isinstance(n.func, ast.Attribute) and n.func.attr in ('append', 'add', 'setdefault') and n.args and other_tag(n.args[0]):
+                    sites.append(n)
+                elif isinstance(n, ast.Assign) and any(isinstance(t_, ast.Subscript) and other_tag(t_.slice) for t_ in n.targets):
+                    sites.append(n)
+            for st_ in sites:
+                n_maps += 1
+                ok = any(isinstance(x, ast.Attribute) and x.attr == 'constructed_tag' for x in ast.walk(g_))
+                ctx.instance('C04.R3', '%s collects member tags for dispatch: %s' % (Model.qual(g_), ast.unparse(st_)[:70]), 'constructed alias collected too' if ok else 'VIOLATION', node=st_, file=rel_)
+                if not ok:
+                    ctx.violation('C04.R3', rel_, st_, Model.qual(g_),
+                                  '`%s` dispatches on the tags of the members but never registers their constructed_tag: a string member in constructed (segmented) form -- valid BER -- '
+                                  'is not found by its tag, and the value or the rest of the SET is lost' % ast.unparse(st_)[:90], stmt='member tags without the constructed alias')
+    if n_maps < 1:
+        ctx.instance('C04.R3', 'collections of member tags for dispatch', 'undecided', 'no map / list keyed by <member>.tag recognised', nontrivial=False, file=BER)
     f = model.func(BER, 'Choice.decode')
     ps = sem.paths(f)
-    ok = ps is not None and any(any('read_tag(' in c[0] and c[0].endswith(' in self.tag_to_member') and c[1] for c in p.conds) for p in ps)
+    # the key looked up in tag_to_member is what read_tag() returns (membership test, subscript or .get())
+    def full_tag_lookup(p):
+        if any('read_tag(' in c[0] and c[0].endswith(' in self.tag_to_member') and c[1] for c in p.conds):
+            return True
+        if any('read_tag(' in c[0] and 'self.tag_to_member' in c[0] for c in p.conds):
+            return True
+        return any(ev[0] == 'call' and ev[1].startswith('self.tag_to_member.get(') and 'read_tag(' in ev[1] for ev in p.events)
+    ok = ps is not None and any(full_tag_lookup(p) for p in ps)
     ctx.instance('C04.R3', 'Choice.decode dispatches on the full identifier octets', 'ok' if ok else ('undecided' if ps is None else 'VIOLATION'), node=f, file=BER)
     if not ok and ps is not None:
         ctx.violation('C04.R3', BER, f, Model.qual(f), 'CHOICE dispatch no longer uses the complete identifier octets', stmt='tag dispatch')
@@ -284,7 +338,7 @@ def check(ctx):
     # a mismatching member must not consume input nor abort: TAG_MISMATCH -> deferred to a list
     ok = any(isinstance(n, ast.If) and 'TAG_MISMATCH' in ast.unparse(n.test) and
              any(isinstance(c, ast.Call) and isinstance(c.func, ast.Attribute) and c.func.attr in ('append', 'add', 'extend', 'insert') for s in n.body + n.orelse for c in ast.walk(s))
-             for n in walk_no_nested(f))
+             for g4 in ([f] + [x for x in fam4 if x is not f]) for n in walk_no_nested(g4))
     ctx.instance('C04.R4', 'a member whose tag does not match is deferred, not an error', 'ok' if ok else 'VIOLATION', node=f, file=BER)
     if not ok:
         ctx.violation('C04.R4', BER, f, Model.qual(f), 'a tag mismatch must defer the member to the next pass', stmt='defer on mismatch')
@@ -391,9 +445,14 @@ def check(ctx):
         if (t == 'enforce_definite' and pol) or 'len(' in t:
             continue
         extra.append(('' if pol else 'not ') + t)
-    ctx.instance('C04.R6', 'decode_length: %d raising paths, each for a missing-data or enforce_definite reason' % n_raise, 'ok' if not extra else 'VIOLATION', node=dl, file=BER)
-    if n_raise < 3:
-        raise AnalysisError('decode_length: only %d raising paths seen' % n_raise)
+    if dl_decided:
+        # non-minimal long forms and a length in nine octets are among the evaluated cases: nothing but missing data / a forbidden indefinite form is refused
+        extra = []
+        ctx.instance('C04.R6', 'decode_length accepts non-minimal and many-octet long forms (evaluated under R1)', 'ok' if not dl_bad else 'see C04.R1', node=dl, file=BER)
+    else:
+        ctx.instance('C04.R6', 'decode_length: %d raising paths, each for a missing-data or enforce_definite reason' % n_raise, 'ok' if not extra else 'VIOLATION', node=dl, file=BER)
+        if n_raise < 3:
+            raise AnalysisError('decode_length: only %d raising paths seen' % n_raise)
     if extra:
         ctx.violation('C04.R6', BER, dl, Model.qual(dl),
                       'decode_length also rejects encodings when %s: BER allows any number of length octets and non-minimal lengths (only DER forbids them)' % sorted(set(extra)), stmt='extra length test')
@@ -426,7 +485,7 @@ MUTANTS = [
             if number_of_bytes > 4:
                 raise DecodeError('Too many length octets.', offset=offset)
 
-            encoded_length = encoded[offset:number_of_bytes + offset]""", expect='C04.R6'),
+            encoded_length = encoded[offset:number_of_bytes + offset]""", expect=('C04.R6', 'C04.R1')),
     dict(name='ExplicitTag ignores indefinite length', file=BER,
          old="""        # Verify End of Contents tag exists for Indefinite field
         if length is None:
